@@ -23,6 +23,10 @@ CHECKS = {
                 text="Proved for all shots from the real source: _cast_primitive_bit (bits incl. bools are the characters 0/1, everything else ValueError), QsysShot.to_register_bits (loop invariant: the register file equals the ghost replay of the entries processed so far, applied in order; indexed writes grow with zeros; whole-register writes overwrite; every character 0/1; ValueError exactly when some value is not a bit or list of bits) and collate_tags. Multi-shot functions (register_bitstrings with the strict options, register_counts, collated_counts, _flatten) are decided by an exhaustive small-scope run of the real code against the oracle transcribed from the statement - bounded, not proved; hence category other. Three genuine defects found this way were repaired by fix: commits (KNOWN_FINDINGS.jsonl).",
                 note=TRUST + "; regex axiomatised (bounded-checked against `re`); ghost replay/collate defined by primitive recursion, equations instantiated at the loop cursor.",
                 technique="contract-based deductive verification with loop invariants over ghost replay functions (z3, cross-checked) + labelled bounded stand-in for multi-shot functions"),
+    "C07": dict(cat="proof", design="5/C07",
+                text="copyable(t) is a ghost predicate defined by structural recursion with one clause per class, as the statement lists them. TypeBound.join (loop invariant, early return) and every type_bound override in the closed world of Type implementors (Sum incl. the sugar sums, Variable, RowVariable, Alias, Opaque, USize, FunctionType, PolyFuncType, _QubitDef, ExtType with explicit / from-params bounds over any index list, std Array / List / StaticArray) are verified against their clause under the interface contract for constituent types; ExtType._to_opaque writes the computed bound; the sugar constructors build the stated rows; StaticArray.__init__ raises ValueError exactly for non-copyable elements. Ground checks tie the bundled definitions' bounds to the JSON files and the class table to the contracts.",
+                note=TRUST + "; _load_extension trusted (facts ground-checked); two-level comprehension abstracted by membership; sequence membership lemma supplied per use.",
+                technique="contract-based deductive verification with modular structural induction (interface contract + per-class refinement), z3 cross-checked by z3-4.8.12/cvc5"),
 }
 
 NOT_APPLICABLE = {
